@@ -622,7 +622,7 @@ def main(tier):
     verdict = common.Verdict(PROP)
     quick = tier == "quick"
     # exhaustive model checking of the invariants (with export: these programs are replayed too)
-    res1, behs1 = run_tlc(2 if quick else 3, 2, export=True, tag="x")
+    res1, behs1 = run_tlc(2 if quick else 3, 2, export=True, tag="x", hoffsets=(1, 4) if quick else (1,))
     print("TLC PyAssist exhaustive:", res1.summary())
     # simulated longer programs
     res2, behs2 = run_tlc(9, 3, simulate={"num": 20 if quick else 80}, depth=10, export=True,
